@@ -2,7 +2,7 @@
 integer-arithmetic core on every run (plugin of tools/extract.py; output lean/Chrono/Extracted/Gen.lean, namespace
 `Chrono.Gen`, one `def` per Rust function, named `<module>.<Type>.<fn>`, e.g. `Chrono.Gen.naive_internals.YearFlags.nisoweeks`).
 
-The theorems `gen_*_eq` in lean/Chrono/Props/Gen{Date,Delta,Weekday}.lean state that each generated definition
+The theorems `gen_*_eq` in lean/Chrono/Props/Gen{Date,Delta,Weekday,Time,…}.lean state that each generated definition
 equals the hand-written model (lean/Chrono/Model/*.lean) for all arguments of the machine types; they are proof
 obligations of C01 / C06 / C19, re-checked on every run against what the source says now.  What is trusted is this
 file: the reading of the Rust subset described below, plus lean/Chrono/GenRt.lean and Chrono/Prim.lean, which
@@ -30,8 +30,9 @@ THE SUBSET.
               `true/false`, variables, constants, `iN::MAX/MIN`, `+ - * / % << >> & | ^ !` and unary `-`, comparisons,
               `&& || !`, `as` between integer types / from bool / from a field-less enum, `iN::from`, tuples, array
               literals and indexing of integer arrays, indexing of the tables tools/extract.py already translates
-              (YEAR_TO_FLAGS, MDL_TO_OL, OL_TO_MDL, YEAR_DELTAS: read from Extracted/Tables.lean), struct literals,
-              field access, calls of translated functions and methods, `Some/None`, `try_opt!(e)` and `e?` on Option,
+              (YEAR_TO_FLAGS, MDL_TO_OL, OL_TO_MDL, YEAR_DELTAS: read from Extracted/Tables.lean), struct literals
+              (also with a base, `T { f: e, ..base }`: the fields not listed are read from `base`, which is
+              evaluated after the listed fields), field access, calls of translated functions and methods, `Some/None`, `try_opt!(e)` and `e?` on Option,
               `crate::expect(opt, msg)`, `.unwrap()`, `.is_some()/.is_none()`, `checked_add/sub/mul`,
               `div_euclid/rem_euclid`, `abs`, `debug_assert!/assert!(…)`, `debug_assert_eq!/…_ne!`,
               `panic!/unreachable!`.
@@ -700,9 +701,11 @@ class Parser:
             if self.at("{") and not nostruct and (segs[-1][0].isupper()):
                 self.i += 1
                 fs = []
+                base = None
                 while not self.at("}"):
-                    if self.at(".."):
-                        raise Refuse("struct update syntax")
+                    if self.eat(".."):
+                        base = self.parse_expr()
+                        break
                     fname = self.ident()
                     if self.eat(":"):
                         fe = self.parse_expr()
@@ -712,7 +715,7 @@ class Parser:
                     if not self.eat(","):
                         break
                 self.expect("}")
-                return N("slit", path=segs, fields=fs)
+                return N("slit", path=segs, fields=fs, base=base)
             return N("path", segs=segs)
         if self.at("<"):
             raise Refuse("qualified path `<T as Trait>::…`")
@@ -1386,7 +1389,12 @@ class FnFront:
             if a["kind"] != "struct":
                 raise Refuse(f"struct literal of {name}")
             want = [f for f, _ in a["fields"]]
-            if sorted(want) != sorted(f for f, _ in e.fields):
+            given = [f for f, _ in e.fields]
+            if e.base is not None:
+                if len(set(given)) != len(given) or not set(given) <= set(want):
+                    raise Refuse(f"struct literal of {name}: unknown or repeated field")
+                T.unify(self.infer(e.base, env, t), t, "(struct update base)")
+            elif sorted(want) != sorted(given):
                 raise Refuse(f"struct literal of {name}: field set differs from the declaration")
             for fname, fe in e.fields:
                 ft = self.field_type(t, fname)
@@ -2097,11 +2105,20 @@ class FnTrans:
             order = [f for f, _ in a["fields"]]
 
             def ks(vs):
-                if len(order) == 1:
-                    return k(vs[0])
                 by = {f: v for (f, _), v in zip(e.fields, vs)}
+                if e.base is not None:
+                    # `T { f: e, ..base }`: the fields not listed are copied from `base`, which is evaluated last
+                    b = vs[-1]
+                    if len(order) == 1:
+                        return k(by.get(order[0], b))
+                    for f in order:
+                        if f not in by:
+                            by[f] = V(lit_text(b.cval[f]), 100, cval=b.cval[f]) if isinstance(b.cval, dict) \
+                                else V(f"{b.emb(100)}.{f}", 100)
+                elif len(order) == 1:
+                    return k(vs[0])
                 return k(V(f"{self.gen.struct_name(t[1])}.mk " + " ".join(by[f].emb(100) for f in order), 90))
-            return self.tr_list([fe for _, fe in e.fields], env, ks)
+            return self.tr_list([fe for _, fe in e.fields] + ([e.base] if e.base is not None else []), env, ks)
         if kd == "block":
             return self.tr_block(e, env, k, hint)
         if kd == "if":
@@ -2900,9 +2917,13 @@ FILES = [
     ("src/weekday.rs", "weekday"),
     ("src/month.rs", "month"),
     ("src/traits.rs", "traits"),
+    ("src/naive/time/mod.rs", "naive_time"),
+    ("src/offset/fixed.rs", "offset_fixed"),
 ]
 
-# (file, impl type | None, function [, trait, Self type for a trait default method])
+# (file, impl type | None, function)                      an inherent / free function
+# (file, impl type, function, trait)                      a method of `impl trait for type`
+# (file, None, function, trait, Self type)                a trait default method read at the given Self
 TARGETS = (
     [("src/naive/internals.rs", "YearFlags", f) for f in
      ["from_year_mod_400", "from_year", "ndays", "isoweek_delta", "nisoweeks"]]
@@ -2926,6 +2947,17 @@ TARGETS = (
        ["succ", "pred", "days_since", "num_days_from_monday", "number_from_monday", "num_days_from_sunday",
         "number_from_sunday"]]
     + [("src/month.rs", "Month", f) for f in ["succ", "pred", "number_from_month"]]
+    + [("src/naive/time/mod.rs", "NaiveTime", f) for f in
+       ["from_hms_opt", "from_hms_milli_opt", "from_hms_micro_opt", "from_hms_nano_opt",
+        "from_num_seconds_from_midnight_opt", "hms", "num_seconds_from_midnight", "nanosecond",
+        "overflowing_add_signed", "overflowing_sub_signed", "signed_duration_since", "overflowing_add_offset",
+        "overflowing_sub_offset"]]
+    + [("src/naive/time/mod.rs", "NaiveTime", f, "Timelike") for f in
+       ["hour", "minute", "second", "nanosecond", "with_hour", "with_minute", "with_second", "with_nanosecond",
+        "num_seconds_from_midnight"]]
+    + [("src/traits.rs", None, f, "Timelike", "NaiveTime") for f in ["hour12", "num_seconds_from_midnight"]]
+    + [("src/offset/fixed.rs", "FixedOffset", f) for f in
+       ["east_opt", "west_opt", "local_minus_utc", "utc_minus_local"]]
 )
 
 
@@ -2944,15 +2976,19 @@ def build(read):
         rel, owner, name = tgt[0], tgt[1], tgt[2]
         mod = dict(FILES)[rel]
         label = f"{rel}: " + (f"{owner}::" if owner else "") + name
-        if len(tgt) > 3:
+        if len(tgt) == 4:
+            label = f"{rel}: <{owner} as {tgt[3]}>::{name}"
+        if len(tgt) > 4:
             label = f"{rel}: {tgt[3]}::{name} (Self = {tgt[4]})"
         if rel in problems:
             missing.append((label, problems[rel]))
             continue
         try:
-            if len(tgt) > 3:
+            if len(tgt) > 4:
                 cands = [x for x in crate.fns.get((None, tgt[3], name), []) if x.mod == mod]
                 cands = [gen.specialise(x, tgt[4], tgt[3]) for x in cands]
+            elif len(tgt) == 4:
+                cands = [x for x in crate.fns.get((owner, tgt[3], name), []) if x.mod == mod]
             else:
                 cands = [x for x in crate.fns.get((owner, None, name), []) if x.mod == mod]
             if not cands:
